@@ -95,6 +95,10 @@ pub struct Host {
     /// below `base` (used only to validate the reference model against real
     /// POSIX behaviour; never part of a verdict about turmoil).
     os_base: Option<std::path::PathBuf>,
+    /// true: the fs / io_uring state is already entered by somebody else (the
+    /// running `turmoil::Sim` enters the current host's state for the whole
+    /// tick), so `enter` must not enter anything itself.
+    ambient: bool,
 }
 
 impl Host {
@@ -111,7 +115,33 @@ impl Host {
             now,
             next_ud: 1,
             os_base: None,
+            ambient: false,
         }
+    }
+
+    /// A host for code that runs *inside* the software of a `turmoil::Sim`
+    /// host: the Sim has entered that host's `Fs` and io_uring state for the
+    /// tick, the shims route there, and this object only carries the ring and
+    /// the user_data counter.  `fs` / `iou` are unused dummies; `now`,
+    /// `advance` and `crash` have no meaning here.
+    pub fn ambient() -> Host {
+        let mut h = Host::new(0, Duration::ZERO);
+        h.ambient = true;
+        h
+    }
+
+    /// Crash the host the way `turmoil::Sim::crash` does for its fs and
+    /// io_uring state (crates/turmoil/src/sim.rs): `Fs::crash()` then
+    /// `IoUringHostState::crash()`.  The ring object of the dead software is
+    /// forgotten; callers must also drop every `Handle` they hold (the
+    /// software that owned them is gone).
+    pub fn crash(&mut self) {
+        assert!(!self.ambient && self.os_base.is_none(), "crash() is only meaningful for a directly driven Fs");
+        self.fs.lock().unwrap().crash();
+        self.iou.lock().unwrap().crash();
+        // the ring was removed from the registry by the crash; dropping the
+        // handle outside `enter` is a no-op for the registry
+        self.ring = None;
     }
 
     /// The real OS filesystem below `base` (created empty).
@@ -130,6 +160,14 @@ impl Host {
     /// Run `f` with this host's fs and io_uring state entered at `self.now`,
     /// the way `Sim` does for one host tick.
     pub fn enter<R>(&mut self, f: impl FnOnce(&mut Entered<'_>) -> R) -> R {
+        if self.ambient {
+            let mut e = Entered {
+                ring: &mut self.ring,
+                next_ud: &mut self.next_ud,
+                os: None,
+            };
+            return f(&mut e);
+        }
         let fs = self.fs.clone();
         let iou = self.iou.clone();
         let _g1 = turmoil_fs::enter(
